@@ -67,4 +67,30 @@ Section Block.
   Theorem block_dense_region : forall p q li lj, (p < nr)%nat -> (q < nc)%nat -> (li < rd p)%nat -> (lj < cd q)%nat ->
     ent block_dense (off rd p + li) (off cd q + lj) = match blk p q with Some m => ent m li lj | None => r0 end.
   Proof. intros. simpl. now rewrite !locate_off. Qed.
+
+  (* block-diagonal operators (BlockedOperatorBase.strong_form: `_range_ops[index, index] = get_inverse_mass_matrix(...)`):
+     row block p of (blockdiag D) * x is D_p times row block p of x *)
+  Lemma sumn_single : forall n p (f : nat -> A), (p < n)%nat -> (forall q, (q < n)%nat -> q <> p -> f q = r0) -> sumn n f = f p.
+  Proof.
+    induction n; intros p f Hp Hz; [lia|]. simpl. destruct (Nat.eq_dec p n) as [->|N].
+    - rewrite (sumn_ext A r0 radd n f (fun _ => r0)) by (intros; apply Hz; lia). rewrite (sumn_zero A r0 r1 radd rmul rsub ropp Rth). ring.
+    - rewrite (IHn p f) by (try lia; intros; apply Hz; lia). rewrite (Hz n) by lia. ring.
+  Qed.
+
+  Theorem block_diagonal_rows : forall (D : nat -> M) (x : M) p li c,
+    (forall a b, blk a b = if Nat.eqb a b then Some (D a) else None) ->
+    (p < nr)%nat -> (p < nc)%nat -> (li < rd p)%nat -> (c < cols x)%nat ->
+    ent (mmul A r0 radd rmul block_dense x) (off rd p + li) c =
+    sumn (cd p) (fun l => rmul (ent (D p) li l) (ent x (off cd p + l)%nat c)).
+  Proof.
+    intros D x p li c HD Hp Hq Hl Hc.
+    destruct (block_matmat_dense x) as (_ & _ & E). rewrite E; [|simpl|simpl].
+    - simpl. rewrite locate_off by assumption. rewrite (sumn_single nc p).
+      + apply sumn_ext. intros l _. unfold bent. now rewrite HD, Nat.eqb_refl.
+      + assumption.
+      + intros q _ N. unfold bent. rewrite HD. destruct (Nat.eqb_spec p q); [congruence|].
+        rewrite (sumn_ext A r0 radd _ _ (fun _ => r0)) by (intros; ring). apply (sumn_zero A r0 r1 radd rmul rsub ropp Rth).
+    - assert (off rd (S p) <= off rd nr)%nat by (apply off_mono; lia). simpl in H. lia.
+    - simpl. assumption.
+  Qed.
 End Block.
